@@ -99,6 +99,12 @@ def parse(text):
 
 
 def configs(text):
+    from .. import sem as _sem
+    with _sem.deep_recursion():
+        return _configs(text)
+
+
+def _configs(text):
     """Set of frozensets of ids: the selections the SXFM document admits."""
     root, ids, clauses = parse(text)
     out = set()
